@@ -1,6 +1,7 @@
 //! C01: named-dimension addressing on Tensor through TensorAccess, all access forms.
 //!   (1 1 shape data req probes write)   write = () | (((idx) v))
 //!   (1 2 shape datalen)
+//!   (1 3 shape req probes)              Tensor::from_fn with producer fold(acc * 7 + i + 1) from 1000
 use crate::guarded;
 use crate::sx::*;
 use crate::with_d;
@@ -43,6 +44,25 @@ pub fn run(args: &[Sx]) -> Sx {
                 return bad_case();
             }
             with_d!(d, access(&shape, &data, &req, &probes, &write))
+        }
+        Some(3) if args.len() == 4 => {
+            let (Some(shape), Some(req), Some(probes)) = (
+                args[1].pairs_usize(),
+                args[2].usizes(),
+                args[3].list().and_then(|p| p.iter().map(|x| x.usizes()).collect::<Option<Vec<_>>>()),
+            ) else {
+                return bad_case();
+            };
+            let d = shape.len();
+            let elements: u128 = shape.iter().map(|x| x.1 as u128).product();
+            if req.len() != d
+                || probes.iter().any(|p| p.len() != d)
+                || shape.iter().any(|x| x.1 > 65536)
+                || elements > 65536
+            {
+                return bad_case();
+            }
+            with_d!(d, from_fn(&shape, &req, &probes))
         }
         Some(2) if args.len() == 3 => {
             let (Some(shape), Some(len)) = (args[1].pairs_usize(), args[2].usize()) else {
@@ -91,6 +111,18 @@ fn access<const D: usize>(
             if guarded(|| tensor.clone().index_by_owned(req).shape()).is_some() {
                 return inconsistent(104);
             }
+            // the error value names what was asked for and what the tensor has, also when shown
+            let shown = e.to_string();
+            if !shown.contains(&format!("{:?}", e.requested)) || !shown.contains(&format!("{:?}", e.actual)) {
+                return inconsistent(107);
+            }
+            let e_mut = TensorAccess::try_from(&mut tensor.clone(), req).err();
+            let e_owned = TensorAccess::try_from(tensor.clone(), req).err();
+            if e_mut.as_ref().map(|x| (x.actual, x.requested)) != Some((e.actual, e.requested))
+                || e_owned.as_ref().map(|x| (x.actual, x.requested)) != Some((e.actual, e.requested))
+            {
+                return inconsistent(108);
+            }
             return ok(err(l(vec![shape_sx(&e.actual), names_sx(&e.requested)])));
         }
         Ok(a) => a,
@@ -98,6 +130,29 @@ fn access<const D: usize>(
     let acc_shape = acc.shape();
     if tensor.index_by(req).shape() != acc_shape || acc.view_shape() != acc_shape {
         return inconsistent(105);
+    }
+    if req == shape.map(|d| d.0) {
+        // the tensor's own order: index(), from_source_order and from_memory_order are this access
+        let a1 = tensor.index();
+        let a2 = TensorAccess::from_source_order(&tensor);
+        let Some(a3) = TensorAccess::from_memory_order(&tensor) else { return inconsistent(140) };
+        if a1.shape() != acc_shape || a2.shape() != acc_shape || a3.shape() != acc_shape || acc_shape != shape {
+            return inconsistent(141);
+        }
+        let mut copy = tensor.clone();
+        let owned_index = tensor.clone().index_owned();
+        for p in &probes {
+            let r = acc.try_get_reference(*p);
+            if a1.try_get_reference(*p) != r
+                || a2.try_get_reference(*p) != r
+                || a3.try_get_reference(*p) != r
+                || tensor.get_reference(*p) != r
+                || owned_index.try_get_reference(*p) != r
+                || copy.index_mut().try_get_reference_mut(*p).map(|x| *x) != r.copied()
+            {
+                return inconsistent(142);
+            }
+        }
     }
     let acc_nc = tensor_nc.index_by(req);
     let mut copy_mut = tensor.clone();
@@ -212,6 +267,46 @@ fn access<const D: usize>(
     ok(ok(l(vec![shape_sx(&acc_shape), l(results), after])))
 }
 
+fn producer<const D: usize>(idx: [usize; D]) -> i64 {
+    idx.iter().fold(1000i64, |acc, &i| acc * 7 + i as i64 + 1)
+}
+
+fn from_fn<const D: usize>(shape: &[(usize, usize)], req: &[usize], probes: &[Vec<usize>]) -> Sx {
+    let shape: [(&'static str, usize); D] = shape_arr(shape);
+    let req: [&'static str; D] = names_arr(req);
+    let Some(tensor) = guarded(|| Tensor::from_fn(shape, producer::<D>)) else {
+        // the non-Clone element type must be rejected as well
+        if guarded(|| Tensor::from_fn(shape, |i| NoClone(producer::<D>(i)))).is_some() {
+            return inconsistent(160);
+        }
+        return panicked();
+    };
+    let tensor_nc = match guarded(|| Tensor::from_fn(shape, |i| NoClone(producer::<D>(i)))) {
+        Some(t) => t,
+        None => return inconsistent(161),
+    };
+    if tensor_nc.iter_reference().map(|x| x.0).collect::<Vec<_>>() != tensor.iter().collect::<Vec<_>>() {
+        return inconsistent(162);
+    }
+    let acc = match TensorAccess::try_from(&tensor, req) {
+        Err(e) => err(l(vec![shape_sx(&e.actual), names_sx(&e.requested)])),
+        Ok(acc) => {
+            let acc_nc = tensor_nc.index_by(req);
+            let mut results = vec![];
+            for p in probes {
+                let p: [usize; D] = idx_arr(p);
+                let r = acc.try_get_reference(p).copied();
+                if acc_nc.try_get_reference(p).map(|x| x.0) != r || guarded(|| acc.get(p)) != r {
+                    return inconsistent(163);
+                }
+                results.push(opt(r.map(z)));
+            }
+            ok(l(vec![shape_sx(&acc.shape()), l(results)]))
+        }
+    };
+    ok(l(vec![shape_sx(&tensor.shape()), dump(&tensor), acc]))
+}
+
 fn ctor<const D: usize>(shape: &[(usize, usize)], len: usize) -> Sx {
     let shape: [(&'static str, usize); D] = shape_arr(shape);
     if len > 1 << 24 {
@@ -225,7 +320,12 @@ fn ctor<const D: usize>(shape: &[(usize, usize)], len: usize) -> Sx {
     };
     let try_from = match Tensor::try_from(shape, data.clone()) {
         Ok(t) => ok(payload(&t)),
-        Err(e) => err(shape_sx(&e.shape())),
+        Err(e) => {
+            if !e.to_string().contains(&format!("{:?}", shape)) || e.shape_ref() != &shape {
+                return inconsistent(150);
+            }
+            err(shape_sx(&e.shape()))
+        }
     };
     l(vec![from, try_from])
 }
